@@ -24,6 +24,40 @@ fn hexs(e: Option<&SExp>) -> Option<String> {
 }
 
 /// `cli (args (n 0|1) (f 0|1) (j HEX)? (u HEX)? (o HEX)*) DOCHEX (answers (http)|MSG …)`
+/// the property's typing rule, written from its wording: true/false as boolean, a decimal 32-bit integer as
+/// integer, anything else as keyword
+fn typed_by_text(v: &str) -> IppValue {
+    if v == "true" {
+        return IppValue::Boolean(true);
+    }
+    if v == "false" {
+        return IppValue::Boolean(false);
+    }
+    let (neg, digits) = match v.as_bytes().first() {
+        Some(b'-') => (true, &v[1..]),
+        Some(b'+') => (false, &v[1..]),
+        _ => (false, v),
+    };
+    if !digits.is_empty() && digits.bytes().all(|b| b.is_ascii_digit()) {
+        let mut acc: i64 = 0;
+        let mut fits = true;
+        for b in digits.bytes() {
+            acc = acc * 10 + (b - b'0') as i64;
+            if acc > (1i64 << 31) {
+                fits = false;
+                break;
+            }
+        }
+        if fits {
+            let val = if neg { -acc } else { acc };
+            if val >= i32::MIN as i64 && val <= i32::MAX as i64 {
+                return IppValue::Integer(val as i32);
+            }
+        }
+    }
+    IppValue::Keyword(v.to_string())
+}
+
 fn op_cli(line: &str, args: &[SExp]) -> CaseResult {
     let bin = match std::env::var("IPPUTIL_BIN") {
         Ok(b) => b,
@@ -132,11 +166,60 @@ fn op_cli(line: &str, args: &[SExp]) -> CaseResult {
     };
     let mut reqs: Vec<String> = vec![];
     let mut oracle = None;
+    // what the command line says, read independently of the tool: -j, -u and every -o key=value (cut at the FIRST
+    // '='; the value typed by its text; the last one given wins per key)
+    let mut want_job: Option<String> = None;
+    let mut want_user: Option<String> = None;
+    let mut want_opts: Vec<(String, IppValue)> = vec![];
+    {
+        let mut i = 1;
+        while i + 1 < cmd_args.len() {
+            match cmd_args[i].as_str() {
+                "-j" => want_job = Some(cmd_args[i + 1].clone()),
+                "-u" => want_user = Some(cmd_args[i + 1].clone()),
+                "-o" => {
+                    if let Some(eq) = cmd_args[i + 1].find('=') {
+                        let (k, v) = (cmd_args[i + 1][..eq].to_string(), cmd_args[i + 1][eq + 1..].to_string());
+                        want_opts.retain(|(k2, _)| *k2 != k);
+                        want_opts.push((k, typed_by_text(&v)));
+                    }
+                }
+                _ => {
+                    i += 1;
+                    continue;
+                }
+            }
+            i += 2;
+        }
+    }
     for c in &caps {
         match parse_flat(&c.body) {
             Ok((h, a, rest)) => {
                 let (m, _) = unbuild(&h, &a, false);
                 reqs.push(format!("({} payload={})", show_msg(&m), hex(&rest)));
+                if h.operation_or_status == Operation::PrintJob as u16 {
+                    let find = |g: u8, name: &str| m.groups.iter().filter(|x| x.0 == g).flat_map(|x| x.1.iter()).find(|x| x.0 == name).map(|x| x.1.clone());
+                    if let Some(j) = &want_job {
+                        if find(1, "job-name") != Some(IppValue::NameWithoutLanguage(j.clone())) {
+                            oracle = Some(format!("-j {:?} is not carried as job-name (name): {:?}", j, find(1, "job-name")));
+                        }
+                    }
+                    if let Some(u) = &want_user {
+                        if find(1, "requesting-user-name") != Some(IppValue::NameWithoutLanguage(u.clone())) {
+                            oracle = Some(format!("-u {:?} is not carried as requesting-user-name (name): {:?}", u, find(1, "requesting-user-name")));
+                        }
+                    }
+                    for (k, v) in &want_opts {
+                        let got = find(2, k);
+                        if got.as_ref() != Some(v) {
+                            oracle = Some(format!("option {}: expected job attribute {:?}, the request carries {:?}", k, v, got));
+                        }
+                    }
+                    let n_job_attrs: usize = m.groups.iter().filter(|x| x.0 == 2).map(|x| x.1.len()).sum();
+                    if oracle.is_none() && n_job_attrs != want_opts.len() {
+                        oracle = Some(format!("{} job attributes in the request, {} distinct options on the command line", n_job_attrs, want_opts.len()));
+                    }
+                }
                 // direct oracle: the document bytes arrive unchanged with the Print-Job request
                 if h.operation_or_status == Operation::PrintJob as u16 && rest != doc {
                     oracle = Some(format!("the Print-Job request carries {} document bytes, the input has {}", rest.len(), doc.len()));
